@@ -5,6 +5,21 @@ sys.path.insert(0, os.path.dirname(os.path.abspath(__file__)))
 import pipelines
 
 ROOT = os.path.dirname(os.path.dirname(os.path.abspath(__file__)))
+
+LEVEL_TEXT = {
+    "model_checking": "The mechanism is an explicit TLA+ specification; TLC checks the property on it exhaustively for small constants (every hash layout, "
+                      "every history up to the graph's closure or the stated depth, every outcome of every random draw). The specification is bound to the code in both directions: "
+                      "every TLC-emitted transition is executed on the real structure and compared (spec -> code), recorded calls on larger parameters are validated against the specification "
+                      "(code -> spec), and every executed call is judged by the property-level TLA+ spec under TLC. This is the right level because the structures are small sequential state "
+                      "machines once hashing and randomness are explicit inputs; beyond the bounds the claim rests on the traces only. ",
+    "exploration": "The property mixes a deterministic core with numeric / allocation content that a TLA+ state machine cannot enumerate; the specification supplies the bound or the input-space model, "
+                   "TLC enumerates that model and judges every recorded outcome, and the code is driven over a grid of configurations and inputs. What is explored is listed in the evidence; "
+                   "no claim is made beyond it. ",
+}
+
+
+def level_text(pid, p):
+    return LEVEL_TEXT[p["level"]] + "This check: " + p.get("rule", "")
 ALL = [json.loads(l)["id"] for l in open(os.path.join(ROOT, "properties.jsonl"))]
 hooks = subprocess.run(["git", "-C", "/repo", "log", "--format=%H %s"], stdout=subprocess.PIPE, text=True).stdout.splitlines()
 hook_commits = [l.split()[0] for l in hooks if "verif hooks" in l]
@@ -40,7 +55,7 @@ for pid in ALL:
             "evidence_file": "/verif/evidence/%s.json" % pid,
             "replay_cmd_template": "./check %s --replay {path}" % pid,
             "engine": "tlc-e1+replay-e2+trace-e3",
-            "level_claimed": {"category": p["level"], "text": p.get("level_text", ""), "design_ref": p.get("design_ref", "DESIGN.md section 5 " + pid)},
+            "level_claimed": {"category": p["level"], "text": level_text(pid, p), "design_ref": p.get("design_ref", "DESIGN.md sections 0.6 and 5 (" + pid + ")")},
             "level_note": p.get("level_note", "; ".join(p.get("assumptions", []))),
             "technique": p.get("technique", "explicit TLA+ specification model-checked with TLC; conformance by replaying TLC-generated transitions in the real code and validating recorded calls against the TLA+ property spec"),
         })
